@@ -558,6 +558,140 @@ fn judge_call<F: Float>(obj: &FFT<F>, small_tables: bool, a: &[i32], b: &[i32]) 
     Ok(())
 }
 
+
+/// VALUE STRUCTURE x DESTINATION LENGTH.  Value structures of an operand of length `len` (non-zero values
+/// of magnitude <= m): what a version that looks at the VALUES of an operand (sparse, few non-zeros, zero
+/// runs at either end, all zero, a single spike) may treat on a path of its own.
+const STRUCTURES: &[&str] = &["dense", "all zero", "spike at 0", "spike in the middle", "spike at the end", "non-zero at both ends only", "three non-zeros spread out", "four non-zeros spread out", "leading half zero", "trailing half zero", "zero runs at both ends"];
+/// operand lengths of the family: every pair
+const STRUCT_LENS: &[usize] = &[0, 1, 2, 3, 5, 8, 9, 15, 16, 17, 24, 31, 32, 33, 40];
+const STRUCT_STATES: &[usize] = &[4, 64];
+static STRUCT_JUDGED: AtomicU64 = AtomicU64::new(0);
+static STRUCT_SHORT_JUDGED: AtomicU64 = AtomicU64::new(0);
+static STRUCT_REFUSED: AtomicU64 = AtomicU64::new(0);
+static STRUCT_SPARSE_LONG_SHORT: AtomicU64 = AtomicU64::new(0);
+
+fn structured(kind: usize, len: usize, m: i32) -> Vec<i32> {
+    let dense = |i: usize| -> i32 {
+        let v = ((i as i64 * 5 + 3) % (2 * m as i64 + 1)) as i32 - m;
+        if v == 0 {
+            m
+        } else {
+            v
+        }
+    };
+    (0..len)
+        .map(|i| {
+            let on = match kind {
+                0 => true,
+                1 => false,
+                2 => i == 0,
+                3 => i == len / 2,
+                4 => i + 1 == len,
+                5 => i == 0 || i + 1 == len,
+                6 => i == 0 || i == len / 2 || i + 1 == len,
+                7 => i == 0 || i == len / 3 || i == 2 * len / 3 || i + 1 == len,
+                8 => i >= len / 2,
+                9 => i < (len + 1) / 2,
+                _ => i >= len / 3 && i < len - len / 3,
+            };
+            if on {
+                dense(i)
+            } else {
+                0
+            }
+        })
+        .collect()
+}
+
+#[derive(Clone, Debug)]
+struct StructSpec {
+    prec: Prec,
+    state: usize,
+    a: Vec<i32>,
+    b: Vec<i32>,
+    /// Some(k): only multiply_into on a destination of length k; None: every length, every variant
+    dest_len: Option<usize>,
+}
+
+/// One pair of operands: `multiply_into(a, b, D)` on a pre-filled D of EVERY length 0..=product length + 1,
+/// judged as the small-size destination family judges it (the positions that exist receive their
+/// coefficients of the schoolbook product, the rest is untouched; a panic at a length >= the product is a
+/// violation); then the transform variants on every destination length (`judge_destination_lengths`).
+/// A panic at a length SHORTER than the product is 'refused, not judged' as everywhere else - provided the
+/// refusal is one of the call SHAPE: if the same object state accepts the same (len a, len b, len D) for
+/// dense operands (returns normally), the shape is in the version's domain and the panic is a panic on an
+/// in-envelope input (family multiply_into_short_destination_refused_by_values).
+fn judge_structured<F: Float>(s: &StructSpec) -> Result<(), (Failed, Option<usize>)> {
+    let obj = grow::<F>(s.prec, Ctor::New, s.state, false).map_err(|e| (e, s.dest_len))?;
+    let (a, b) = (&s.a[..], &s.b[..]);
+    let due = conv(a, b);
+    let cloned = |k: Option<usize>| catch(|| obj.clone()).map_err(|p| (("object_state_panics", format!("cloning the object panicked: {p}")), k));
+    let lengths: Vec<usize> = match s.dest_len {
+        Some(k) => vec![k],
+        None => (0..=due.len() + 1).collect(),
+    };
+    let sparse_long = |v: &[i32]| v.len() >= 9 && v.iter().filter(|&&x| x != 0).count() * 2 < v.len();
+    for k in lengths {
+        let mut o = cloned(Some(k))?;
+        let mut dest: Vec<i64> = (0..k).map(pre).collect();
+        match catch(|| o.multiply_into(a, b, &mut dest)) {
+            Err(p) if k >= due.len() => return Err((("multiply_panics", format!("multiply_into on a destination of length {k} (the product has {} coefficients) panicked: {p}", due.len())), Some(k))),
+            Err(p) => {
+                let (wa, wb) = (structured(0, a.len(), 1), structured(0, b.len(), 1));
+                let mut o = cloned(Some(k))?;
+                let mut wd: Vec<i64> = (0..k).map(pre).collect();
+                if (a != &wa[..] || b != &wb[..]) && catch(|| o.multiply_into(&wa, &wb, &mut wd)).is_ok() {
+                    return Err((("multiply_into_short_destination_refused_by_values", format!("multiply_into on a pre-filled destination of length {k} (the product has {} coefficients) panicked: {p}; the same object state returns normally from the same call shape (len a = {}, len b = {}, destination of length {k}) with dense operands of magnitude 1, so short destinations are accepted and the panic depends on the coefficient VALUES", due.len(), a.len(), b.len())), Some(k)));
+                }
+                STRUCT_REFUSED.fetch_add(1, Relaxed);
+            }
+            Ok(()) => {
+                STRUCT_JUDGED.fetch_add(1, Relaxed);
+                if k < due.len() {
+                    STRUCT_SHORT_JUDGED.fetch_add(1, Relaxed);
+                    if sparse_long(a) || sparse_long(b) {
+                        STRUCT_SPARSE_LONG_SHORT.fetch_add(1, Relaxed);
+                    }
+                }
+                judge_dest("multiply_into", &due, &dest).map_err(|m| ((if k < due.len() { "multiply_into_short_destination" } else { "multiply_into_accumulates" }, m), Some(k)))?;
+            }
+        }
+    }
+    if s.dest_len.is_none() && !due.is_empty() {
+        let n = due.len().next_power_of_two().max(2);
+        let mut padded = due.clone();
+        padded.resize(n, 0);
+        judge_destination_lengths(&obj, s.state < n, a, b, n, &padded).map_err(|e| (e, None))?;
+    }
+    Ok(())
+}
+
+fn run_struct(s: &StructSpec) -> Result<(), (Failed, Option<usize>)> {
+    match s.prec {
+        Prec::F64 => judge_structured::<f64>(s),
+        Prec::F32 => judge_structured::<f32>(s),
+    }
+}
+
+fn struct_json(s: &StructSpec) -> Value {
+    json!({"kind": "value_structure_x_destination_length", "prec": format!("{:?}", s.prec), "state": s.state, "a": rle(&s.a), "b": rle(&s.b), "dest_len": s.dest_len})
+}
+
+fn struct_from(v: &Value) -> StructSpec {
+    StructSpec { prec: if v["prec"] == "F32" { Prec::F32 } else { Prec::F64 }, state: v["state"].as_u64().unwrap() as usize, a: unrle(&v["a"]), b: unrle(&v["b"]), dest_len: v["dest_len"].as_u64().map(|k| k as usize) }
+}
+
+/// the whole vector when it is short, else its non-zero entries
+fn describe_sparse(v: &[i32]) -> String {
+    let nz: Vec<String> = v.iter().enumerate().filter(|(_, &x)| x != 0).map(|(i, x)| format!("{i}:{x}")).collect();
+    if v.len() <= 10 || nz.len() > 6 {
+        describe(v)
+    } else {
+        format!("len {} zero but {{{}}}", v.len(), nz.join(","))
+    }
+}
+
 fn run_spec(s: &CallSpec) -> Result<(), Failed> {
     // aliased operands are passed as what they are: two views of one allocation
     let (a, b): (&[i32], &[i32]) = match &s.views {
@@ -1276,6 +1410,9 @@ fn confirm_here(v: &Value) -> Result<(), String> {
     if v["kind"] == "reuse_history" {
         return run_reuse(&reuse_from(v));
     }
+    if v["kind"] == "value_structure_x_destination_length" {
+        return run_struct(&struct_from(v)).map_err(|((f, m), _)| format!("[{f}] {m}"));
+    }
     if v["kind"] == "history" {
         let ops: Vec<HOp> = v["ops"].as_array().unwrap().iter().map(hop_from).collect();
         return catch(|| run_history(&ops)).unwrap_or_else(|p| Err(format!("panic: {p}")));
@@ -1710,6 +1847,51 @@ fn main() {
     // shortest history first, then the smallest length pair, then task order
     let reuse_fail = reuse_results.iter().enumerate().filter_map(|(ti, r)| r.1.as_ref().map(|f| ((f.0, reuse_tasks[ti].0, ti, f.1), f))).min_by_key(|x| x.0).map(|x| x.1.clone());
 
+    // --- value structure of the operands x destination length of the accumulate-into variants ----------
+    // every pair of STRUCT_LENS x every structure against dense (either side) and against itself x both
+    // float types x STRUCT_STATES; simplest first: (la + lb, la, structure, side, float type, state)
+    let mut struct_tasks: Vec<(usize, usize)> = vec![];
+    for &la in STRUCT_LENS {
+        for &lb in STRUCT_LENS {
+            struct_tasks.push((la, lb));
+        }
+    }
+    struct_tasks.sort_by_key(|&(la, lb)| (la + lb, la));
+    let struct_results: Vec<(u64, u64, Option<((usize, usize), &'static str, StructSpec, String)>)> = struct_tasks
+        .par_iter()
+        .map(|&(la, lb)| {
+            let (mut pairs, mut skipped) = (0u64, 0u64);
+            for kind in 0..STRUCTURES.len() {
+                for side in 0..3 {
+                    if kind == 0 && side > 0 {
+                        continue;
+                    }
+                    for &prec in &[Prec::F64, Prec::F32] {
+                        let m = amax(prec, la, lb).min(9);
+                        if m < 1 {
+                            skipped += 1;
+                            continue;
+                        }
+                        let (ka, kb) = [(kind, 0), (0, kind), (kind, kind)][side];
+                        for &state in STRUCT_STATES {
+                            let mut spec = StructSpec { prec, state, a: structured(ka, la, m), b: structured(kb, lb, m), dest_len: None };
+                            pairs += 1;
+                            if let Err(((fam, msg), k)) = run_struct(&spec) {
+                                spec.dest_len = k;
+                                return (pairs, skipped, Some(((la + lb, la), fam, spec, msg)));
+                            }
+                        }
+                    }
+                }
+            }
+            (pairs, skipped, None)
+        })
+        .collect();
+    let struct_pairs: u64 = struct_results.iter().map(|r| r.0).sum();
+    let struct_skipped: u64 = struct_results.iter().map(|r| r.1).sum();
+    // tasks are sorted simplest first: the first failing task holds the smallest failing case
+    let struct_fail = struct_results.iter().find_map(|r| r.2.clone());
+
     // --- what is reported: per family the first failure that a fresh thread shows again ---------------
     let part5_calls = part5.calls;
     let mut all = merge(merge(merge(part1, part2), part3), part5);
@@ -1729,6 +1911,11 @@ fn main() {
     }
     if let Some((_, _, spec, m)) = &reuse_fail {
         candidates.push(Candidate { signature: reuse_signature(spec), summary: m.clone(), replay: reuse_json(spec) });
+    }
+    if let Some((_, fam, spec, m)) = &struct_fail {
+        let at = spec.dest_len.map(|k| format!(":dest_len={k}")).unwrap_or_default();
+        let summary = format!("[{fam}] value structure x destination length: {:?} object from new() with tables of size {} (update_n), a = {} (len {}), b = {} (len {}): {m}", spec.prec, spec.state, describe_sparse(&spec.a), spec.a.len(), describe_sparse(&spec.b), spec.b.len());
+        candidates.push(Candidate { signature: format!("{fam}:{:?}:state={}:a={}:b={}{at}", spec.prec, spec.state, describe_sparse(&spec.a), describe_sparse(&spec.b)), summary, replay: struct_json(spec) });
     }
     if let Some((_, h, m)) = &hist_fail {
         candidates.push(Candidate { signature: format!("history:{:?}", h), summary: m.clone(), replay: json!({"kind": "history", "ops": h.iter().map(hop_json).collect::<Vec<_>>()}) });
@@ -1800,15 +1987,25 @@ fn main() {
     run.cov("destination_length_calls_judged", per_variant(&DEST_LEN_JUDGED));
     run.cov("destination_length_calls_judged_with_an_odd_length_shorter_than_due", per_variant(&DEST_LEN_ODD_SHORT));
     run.cov("destination_length_calls_refused_by_panic_not_judged", per_variant(&DEST_LEN_REFUSED));
+    run.cov("value_structure_family_structures", json!(STRUCTURES));
+    run.cov("value_structure_family_operand_lengths_every_pair", json!(STRUCT_LENS));
+    run.cov("value_structure_family_object_states", json!(STRUCT_STATES));
+    run.cov("value_structure_family_operand_pairs", struct_pairs);
+    run.cov("value_structure_family_operand_pairs_skipped_out_of_domain", struct_skipped);
+    run.cov("value_structure_family_multiply_into_calls_judged", STRUCT_JUDGED.load(Relaxed));
+    run.cov("value_structure_family_multiply_into_calls_judged_destination_shorter_than_product", STRUCT_SHORT_JUDGED.load(Relaxed));
+    run.cov("value_structure_family_multiply_into_short_destination_with_a_long_mostly_zero_operand", STRUCT_SPARSE_LONG_SHORT.load(Relaxed));
+    run.cov("value_structure_family_multiply_into_calls_refused_by_panic_for_every_value_not_judged", STRUCT_REFUSED.load(Relaxed));
     run.cov(
         "rule",
-        "state = (how the object was obtained: new, Default::default, a clone of either - the whole public constructor surface; size of its twiddle/bit-reversal tables: every power of two 4..2^K for new(), reached by update_n and by a large multiply, and for every constructor the sizes 1 and 2 below the pre-sized 4 - so that a 1-, 2- or 4-point transform is the FIRST thing that kind of fresh object computes - and 4, 8, 64, 2048); transition = one call (a, b) judged five ways (exact convolution, fresh object, repeated call, multiply_into on a pre-filled destination longer than the product and on destinations shorter than it (lengths 1, min and max operand length, product length - 1: the positions that exist must receive exactly their coefficients), fft*fft->fft_inv and fft_inv_into); DESTINATION LENGTHS: every call whose transform size is <= 16 (all pairs with la + lb <= 17, in every object state, constructor, float type, pattern and magnitude that the call is enumerated with; also the size-1 transforms of single coefficients) additionally runs each accumulate-into variant - multiply_into(a, b, D), fft_inv_into(fft(a)*fft(b), D), fft_into(a, n, D), fft_into(b, n, D) - on a pre-filled destination D of EVERY length 0..=due+2 (due = product length for multiply_into, transform size n for the two transform variants): the positions that exist must hold what they held plus the leading len(D) coefficients of the exact convolution (for fft_into: plus, in the float type, the value fft returns on an object in the same state), positions beyond what is due must be untouched; objects whose tables are smaller than 16 serve every length on a copy of their own, so that each length is also the call that grows the tables; a panic at a length other than the due one is 'refused' and counted, not judged; calls = every length pair of the length set x 12 pattern pairs x magnitudes {1, sqrt(Amax), Amax} with Amax on the envelope boundary (constructors other than new and the sizes 1, 2: all pairs of lengths <= 8 and a third of the pairs at a size switch), all vectors over {-A,-1,0,1,A} for lengths <= 4 (quick: la+lb <= 6), envelope corners with long vectors, all call histories of length <= 3 over an 8-call alphabet; ALIASED operands: a and b passed as two views of ONE buffer - all pairs of windows of an 8-element buffer (quick; the same slice twice, prefixes, suffixes, nested, overlapping, adjacent, empty) and the same relations at longer lengths around powers of two, 4 contents x 2 magnitudes, judged the same five ways against the convolution of the VALUES; BUFFER-REUSE histories: one object and one set of caller buffers (two inputs, three spectrum buffers, one destination, never reallocated: same address, same length, same n), every word of up to 3 letters (contents in {c0, c0 with A and B exchanged, c2} written into the buffers IN PLACE) x (method in {multiply, multiply with the arguments exchanged, multiply_into, fft/fft/pointwise/fft_inv, fft_into/fft_into/pointwise/fft_inv_into, fft once/pointwise square/fft_inv on A, the same on B}), every step compared with the convolution of the buffers' current values, for 8 length pairs x {new, default} x {f64, f32}; SEVERAL OBJECTS (the history of a THREAD is what is enumerated; runs first): a cast of two or three objects (f64/f64, f64/f32, f64/f32/f64) is created in order by new() on a fresh thread T0, then every word of up to 3 letters (2 for the cast of three; thorough 4 / 3) over {judged product of a size class (transform sizes 2, 16, 512, magnitudes on the envelope boundary) on one of the objects ITSELF - multiply, multiply_into on a pre-filled destination, fft*fft->fft_inv and fft_inv_into, each against the schoolbook convolution; update_n(1024) on an object; an object dropped and a new one created in its place; an object replaced by a clone of another of its float type; 'hop': the following steps run on the script's second fresh thread T1, or back on T0 - every object moves (generated only if the compiler says the objects are Send); 'lend': the other thread clones an object through a shared reference, computes the mid product on the clone and drops it (only if they are Sync)}, at the end everything is dropped on the thread of the last step; the words include an object that is fresh next to a grown one, objects used alternately while one of them grows, a fresh object after a grown one was dropped, an object grown on one thread and used on the other; EVERY call into the crate (constructors, clones, update_n, the growing multiplies - themselves judged against the convolution of all-ones vectors -, transforms, explicit drops) is inside catch, and a panic is a violation of the family it belongs to (object_state_panics for constructors, clones and update_n); NOT all coefficient vectors (exhaustive: false)",
+        "state = (how the object was obtained: new, Default::default, a clone of either - the whole public constructor surface; size of its twiddle/bit-reversal tables: every power of two 4..2^K for new(), reached by update_n and by a large multiply, and for every constructor the sizes 1 and 2 below the pre-sized 4 - so that a 1-, 2- or 4-point transform is the FIRST thing that kind of fresh object computes - and 4, 8, 64, 2048); transition = one call (a, b) judged five ways (exact convolution, fresh object, repeated call, multiply_into on a pre-filled destination longer than the product and on destinations shorter than it (lengths 1, min and max operand length, product length - 1: the positions that exist must receive exactly their coefficients), fft*fft->fft_inv and fft_inv_into); DESTINATION LENGTHS: every call whose transform size is <= 16 (all pairs with la + lb <= 17, in every object state, constructor, float type, pattern and magnitude that the call is enumerated with; also the size-1 transforms of single coefficients) additionally runs each accumulate-into variant - multiply_into(a, b, D), fft_inv_into(fft(a)*fft(b), D), fft_into(a, n, D), fft_into(b, n, D) - on a pre-filled destination D of EVERY length 0..=due+2 (due = product length for multiply_into, transform size n for the two transform variants): the positions that exist must hold what they held plus the leading len(D) coefficients of the exact convolution (for fft_into: plus, in the float type, the value fft returns on an object in the same state), positions beyond what is due must be untouched; objects whose tables are smaller than 16 serve every length on a copy of their own, so that each length is also the call that grows the tables; a panic at a length other than the due one is 'refused' and counted, not judged; calls = every length pair of the length set x 12 pattern pairs x magnitudes {1, sqrt(Amax), Amax} with Amax on the envelope boundary (constructors other than new and the sizes 1, 2: all pairs of lengths <= 8 and a third of the pairs at a size switch), all vectors over {-A,-1,0,1,A} for lengths <= 4 (quick: la+lb <= 6), envelope corners with long vectors, all call histories of length <= 3 over an 8-call alphabet; ALIASED operands: a and b passed as two views of ONE buffer - all pairs of windows of an 8-element buffer (quick; the same slice twice, prefixes, suffixes, nested, overlapping, adjacent, empty) and the same relations at longer lengths around powers of two, 4 contents x 2 magnitudes, judged the same five ways against the convolution of the VALUES; BUFFER-REUSE histories: one object and one set of caller buffers (two inputs, three spectrum buffers, one destination, never reallocated: same address, same length, same n), every word of up to 3 letters (contents in {c0, c0 with A and B exchanged, c2} written into the buffers IN PLACE) x (method in {multiply, multiply with the arguments exchanged, multiply_into, fft/fft/pointwise/fft_inv, fft_into/fft_into/pointwise/fft_inv_into, fft once/pointwise square/fft_inv on A, the same on B}), every step compared with the convolution of the buffers' current values, for 8 length pairs x {new, default} x {f64, f32}; SEVERAL OBJECTS (the history of a THREAD is what is enumerated; runs first): a cast of two or three objects (f64/f64, f64/f32, f64/f32/f64) is created in order by new() on a fresh thread T0, then every word of up to 3 letters (2 for the cast of three; thorough 4 / 3) over {judged product of a size class (transform sizes 2, 16, 512, magnitudes on the envelope boundary) on one of the objects ITSELF - multiply, multiply_into on a pre-filled destination, fft*fft->fft_inv and fft_inv_into, each against the schoolbook convolution; update_n(1024) on an object; an object dropped and a new one created in its place; an object replaced by a clone of another of its float type; 'hop': the following steps run on the script's second fresh thread T1, or back on T0 - every object moves (generated only if the compiler says the objects are Send); 'lend': the other thread clones an object through a shared reference, computes the mid product on the clone and drops it (only if they are Sync)}, at the end everything is dropped on the thread of the last step; the words include an object that is fresh next to a grown one, objects used alternately while one of them grows, a fresh object after a grown one was dropped, an object grown on one thread and used on the other; EVERY call into the crate (constructors, clones, update_n, the growing multiplies - themselves judged against the convolution of all-ones vectors -, transforms, explicit drops) is inside catch, and a panic is a violation of the family it belongs to (object_state_panics for constructors, clones and update_n); VALUE STRUCTURE x DESTINATION LENGTH: every pair of operand lengths of {0, 1, 2, 3, 5, 8, 9, 15, 16, 17, 24, 31, 32, 33, 40} (transform sizes 2..128, well above the smallest) x every value structure of an operand (dense, all zero, single spike at 0 / in the middle / at the end, non-zero at both ends only, three and four non-zeros spread out, leading half zero, trailing half zero, zero runs at both ends) against a dense operand on either side and against itself x {f64, f32} x tables of size {4, 64}: multiply_into(a, b, D) on a pre-filled D of EVERY length 0..=product length + 1, and fft_into(a, n, D), fft_into(b, n, D), fft_inv_into(fft(a)*fft(b), D) on every length 0..=n + 2, against the schoolbook product placed as in the destination-length family (positions that exist receive their coefficients, the rest is untouched; a panic at the due length or beyond is a violation; a panic at a shorter length is 'refused' and counted, not judged - unless the same object state returns normally from the SAME call shape (len a, len b, len D) with dense operands: then the version accepts that shape and a panic that depends on the coefficient values is a panic on an in-envelope input, family multiply_into_short_destination_refused_by_values); counts under value_structure_family_*; NOT all coefficient vectors (exhaustive: false)",
     );
     run.sample(json!({"prec": "F64", "state": 2048, "a": "alternating ±A (len 33)", "b": "alternating ±A (len 31)", "A": amax(Prec::F64, 33, 31)}));
     run.sample(json!({"prec": "F32", "state": 4, "a": pattern(8, 5, amax(Prec::F32, 5, 4)), "b": pattern(2, 4, amax(Prec::F32, 5, 4))}));
     run.sample(json!({"history": hists.last().map(|h| h.iter().map(hop_json).collect::<Vec<_>>())}));
     run.assume("the envelope is read as max|coef|^2 * max(len a, len b) <= 1e12 (f64): inside the property's formula and inside the published table for unequal lengths too (zero padding); the f32 envelope max|coef|^2 * max(len) <= 1e3 is this harness's reading of 'a correspondingly smaller bound for f32' (>= 100x inside CORRECT_F32_BOUNDS)");
     run.sample(json!({"destination_lengths": {"call": "fft_inv_into(fft(a, 8) * fft(b, 8), D)", "a": [1, -2, 3], "b": [4, 5, -6], "D": "pre-filled, of each length 0..=10", "expected": "D[i] += conv(a, b)[i] for i < min(len D, 5), everything else untouched"}}));
+    run.sample(json!({"value_structure_x_destination_length": struct_json(&StructSpec { prec: Prec::F64, state: 4, a: structured(5, 17, 9), b: structured(0, 8, 9), dest_len: Some(11) })}));
     run.sample(json!({"aliased": {"buffer": pattern(8, 8, 11), "a": "buf[0..5]", "b": "buf[0..3]", "relation": relation(0, 5, 0, 3)}}));
     run.sample(json!({"buffer_reuse_history": reuse_json(&ReuseSpec { prec: Prec::F64, ctor: Ctor::Default, la: 3, lb: 2, steps: vec![(0, 5), (1, 5), (2, 3)] })}));
     {
@@ -1835,6 +2032,9 @@ fn main() {
         }
         if (0..3).any(|v| DEST_LEN_JUDGED[v].load(Relaxed) < 10_000 || DEST_LEN_ODD_SHORT[v].load(Relaxed) < 1000) {
             run.machinery_failure("the destination-length family judged too few calls of some accumulate-into variant (or none with an odd destination shorter than what is due)");
+        }
+        if struct_pairs < 1000 || (STRUCT_REFUSED.load(Relaxed) == 0 && STRUCT_SPARSE_LONG_SHORT.load(Relaxed) < 10_000) || STRUCT_SHORT_JUDGED.load(Relaxed) + STRUCT_REFUSED.load(Relaxed) < 100_000 {
+            run.machinery_failure("the value-structure x destination-length family ran too few multiply_into calls with a long mostly-zero operand and a destination shorter than the product");
         }
         if !object_states.iter().any(|o| o.0 == Ctor::Default && o.1 == 1) || !CTORS.iter().all(|c| object_states.iter().any(|o| o.0 == *c)) {
             run.machinery_failure("some public constructor is not an initial object state");
